@@ -30,6 +30,13 @@ func (r c16Raw) source() string {
 	if r.Kind == "repeat" {
 		return strings.Repeat(string(b), r.Repeat)
 	}
+	if r.Kind == "exact" { // exactly r.Repeat bytes, starting with the pattern
+		if len(b) == 0 {
+			b = []byte("x")
+		}
+		s := strings.Repeat(string(b), r.Repeat/len(b)+1)
+		return s[:r.Repeat]
+	}
 	return string(b)
 }
 
@@ -118,6 +125,14 @@ func (propC16) Gen(seed uint64, ex map[string]bool) interface{} {
 		}
 		if r.P(50) {
 			raw.ASTHex = hex.EncodeToString([]byte{0, 1, 2, 0xff, byte(r.N(256))})
+		}
+		if r.P(35) {
+			// exact lengths around the boundaries of plausible length encodings (1, 2, 3 byte prefixes, varints)
+			n := pick(r, []int{127, 128, 255, 256, 16383, 16384, 32767, 32768, 65534, 65535, 65536, 65537, 1<<21 - 1, 1 << 21})
+			raw.Kind, raw.Hex, raw.Repeat = "exact", hex.EncodeToString([]byte(pick(r, []string{"x", "\x03\x00\x00\x00", "ab", "\xff"}))), n
+			if r.P(30) && n <= 70000 {
+				raw.Name = strings.Repeat("n", n) // the name field has a length prefix too
+			}
 		}
 		sc.Raws = append(sc.Raws, raw)
 	}
